@@ -267,7 +267,7 @@ def run_shard(ctx: Ctx, rec: Recorder) -> None:
                 for scheme in ("http", "https", "tunnel"):
                     for placement in ("pool", "request", "both"):
                         idx += 1
-                        if not ctx.mine(idx) or (idx // ctx.nshards) % stride:
+                        if not ctx.mine(idx) or ctx.skip(idx, stride):
                             continue
                         other = {"total": 7, "connect": 3, "read": 4}
                         plan = [{"connect_dur": cd, "send_dur": sd}, {"connect_dur": cd, "send_dur": sd, "resp_dur": 0.4}]
@@ -295,7 +295,7 @@ def run_shard(ctx: Ctx, rec: Recorder) -> None:
         ]
         for cd in (0, 1):
             idx += 1
-            if not ctx.mine(idx) or (idx // ctx.nshards) % stride:
+            if not ctx.mine(idx) or ctx.skip(idx, stride):
                 continue
             plan = [{"connect_dur": cd, "send_dur": 0.2}, {"connect_dur": cd, "send_dur": 0, "resp_dur": 0.4}]
             case = {"scheme": "manager", "pool_timeout": spec, "prior": [p for p in priors if p != spec], "plan": plan}
